@@ -205,6 +205,8 @@ def check(ctx):
                  lambda: run_apply(P, "(X:center,Y:outer)->(X:center)", [(AX, AY)], args=lambda: (make_da("a", [dimsym("AX", "center"), dimsym("AY", "center")]),), positions=["center", "left"]))
     B.must_raise("G10", app, "grid ufunc: signature position the axis lacks, second argument",
                  lambda: run_apply(P, "(X:center),(X:outer)->(X:center)", [(AX,), (AX,)], args=lambda: (make_da("a", [dimsym("AX", "center")]), make_da("b", [dimsym("AX", "center")])), positions=["center", "left"], axnames=("AX",)))
+    B.must_raise("G10", app, "grid ufunc: the first of two inputs is given fewer axes than its signature entry",
+                 lambda: run_apply(P, "(X:center,Y:center),(Y:center)->(X:center)", [(AX,), (AY,)], args=lambda: (make_da("a", [dimsym("AX", "center"), dimsym("AY", "center")]), make_da("b", [dimsym("AY", "center")]))))
     B.must_return("G10", app, "valid: grid ufunc with matching inputs", lambda: run_apply(P, "(X:center),(X:left)->(X:center)", [(AX,), (AX,)], args=lambda: (make_da("a", [dimsym("AX", "center")]), make_da("b", [dimsym("AX", "left")])), boundary_width={"X": (1, 1)}))
 
 
